@@ -98,3 +98,91 @@ def runMatch (fuel : Nat) (prog : Prog) (p f : V) (bs : Bs) : RunRes :=
       | .ok _ => .fail (.stuck "Match did not return two values")
 
 end Go
+
+/-! ## Running the translated `tools.Analyze`
+
+The structural view of a compiled spec (`Tools.TSpec`) is laid out on the interpreter's heap the
+way `core.Spec` is in Go — `*Spec{Nodes: map[string]*Node}`, `*Node{Action, ActionSource,
+Branches}`, `*Branches{Branches: []*Branch}`, `*Branch{Target, Guard, GuardSource}`,
+`*ActionSource{Interpreter}` — and the translated `Analyze` is called on it. -/
+
+namespace Go
+
+def allocObj (h : Heap) (ty : String) (kvs : List (GV × GV)) : GV × Heap :=
+  (.ref h.length, h ++ [{ ty := ty, kvs := kvs }])
+
+def srcObj (h : Heap) (interp : Option String) : GV × Heap :=
+  match interp with
+  | some i => allocObj h "ActionSource" [(.str "Interpreter", .str i)]
+  | none => (.nil, h)
+
+def ofBranches (h : Heap) : List (String × Bool × Option String) → List GV × Heap
+  | [] => ([], h)
+  | (target, hasGuard, gi) :: rest =>
+    let (gs, h1) := srcObj h gi
+    let (guard, h2) : GV × Heap := if hasGuard && gi.isNone then allocObj h1 "FuncAction" [] else (.nil, h1)
+    let (b, h3) := allocObj h2 "Branch" [(.str "Target", .str target), (.str "Guard", guard), (.str "GuardSource", gs)]
+    let (bs, h4) := ofBranches h3 rest
+    (b :: bs, h4)
+
+/-- nodes as (name, hasAction, actionInterp, branches) -/
+def ofNodes (h : Heap) : List (String × Bool × Option String × Option (List (String × Bool × Option String))) →
+    List (GV × GV) × Heap
+  | [] => ([], h)
+  | (name, hasAction, ai, brs) :: rest =>
+    let (src, h1) := srcObj h ai
+    let (act, h2) : GV × Heap := if hasAction && ai.isNone then allocObj h1 "FuncAction" [] else (.nil, h1)
+    let (bv, h3) : GV × Heap := match brs with
+      | none => (.nil, h2)
+      | some bl =>
+        let (bs, h') := ofBranches h2 bl
+        allocObj h' "Branches" [(.str "Branches", .slice bs)]
+    let (nd, h4) := allocObj h3 "Node" [(.str "Action", act), (.str "ActionSource", src), (.str "Branches", bv)]
+    let (more, h5) := ofNodes h4 rest
+    ((.str name, nd) :: more, h5)
+
+def strsOf (h : Heap) (o : MapObj) (f : String) : List String :=
+  match mlookup (.str f) o.kvs with
+  | some v => (match sliceElems v with
+      | some xs => xs.filterMap (fun x => match x with | .str s => some s | _ => none)
+      | none => [])
+  | none => let _ := h; []
+
+def natOf (o : MapObj) (f : String) : Nat :=
+  match mlookup (.str f) o.kvs with
+  | some (.int i) => i.toNat
+  | _ => 0
+
+structure AnalysisOut where
+  nodeCount : Nat
+  branches : Nat
+  actions : Nat
+  guards : Nat
+  terminal : List String
+  orphans : List String
+  emptyTargets : List String
+  missing : List String
+  targetVars : List String
+  interpreters : List String
+
+/-- `Analyze(spec)` of the translated program -/
+def runAnalyze (fuel : Nat) (prog : Prog)
+    (nodes : List (String × Bool × Option String × Option (List (String × Bool × Option String)))) :
+    Except String AnalysisOut :=
+  let (ns, h1) := ofNodes [] nodes
+  let (nm, h2) := allocObj h1 "map[string]*core.Node" ns
+  let (sp, h3) := allocObj h2 "Spec" [(.str "Nodes", nm)]
+  match callFn fuel prog [] "Analyze" .nil [sp] h3 with
+  | .error (.fuel) => .error "fuel"
+  | .error (.panic m) => .error ("panic:" ++ m)
+  | .error (.stuck m) => .error ("stuck:" ++ m)
+  | .ok ([.ref a, .nil], h4) =>
+    match heapGet h4 a with
+    | some o => .ok { nodeCount := natOf o "NodeCount", branches := natOf o "Branches", actions := natOf o "Actions",
+                      guards := natOf o "Guards", terminal := strsOf h4 o "TerminalNodes", orphans := strsOf h4 o "Orphans",
+                      emptyTargets := strsOf h4 o "EmptyTargets", missing := strsOf h4 o "MissingTargets",
+                      targetVars := strsOf h4 o "BranchTargetVariables", interpreters := strsOf h4 o "Interpreters" }
+    | none => .error "dangling result"
+  | .ok _ => .error "unexpected result shape"
+
+end Go
